@@ -43,6 +43,7 @@ import (
 const (
 	waitWatch   = 25 * time.Second // wall-clock watchdog of every blocking wait (firing = inconclusive)
 	quietRounds = 3
+	idleRounds  = 2 // heartbeat-only rounds after the quiet rounds, closed by one flush sentinel round
 )
 
 var modes = []config.ReplayMode{config.ReplayModeSync, config.ReplayModePipeline, config.ReplayModeParallel}
@@ -91,6 +92,7 @@ func main() {
 		r := run.Rand(key)
 		oneLoop(run, key, r, genLoopCfg(r, i))
 	})
+	markerExpiryCases(run)
 	// a run that observed nothing proves nothing
 	if run.Replaying() {
 		run.Exit()
@@ -147,7 +149,7 @@ func oneLoop(run *harness.Run, key string, r *rand.Rand, c loopCfg) {
 	defer A.srv.Close()
 	defer B.srv.Close()
 	env := &loopEnv{key: key, cfg: c, sites: map[string]*site{"A": A, "B": B}, dataset: map[string][]rdbx.Key{}, lateSnapOff: -1,
-		issued: map[string][]issued{}, snapDone: map[string]bool{}, quietFrom: map[string]int{}}
+		issued: map[string][]issued{}, snapDone: map[string]bool{}, quietFrom: map[string]int{}, idleMarks: map[string][]int{}}
 
 	A.snapshotCopiesOwn = c.LateReverse // set before any traffic; read by A's hooks only
 	snapA := drive.EmptyRDB
@@ -182,6 +184,33 @@ func oneLoop(run *harness.Run, key string, r *rand.Rand, c loopCfg) {
 		startBA()
 	}
 
+	// ---- the masters' periodic PING while the applications are active (repl-ping-replica-period,
+	// scaled down); during the sentinel phase the heartbeat is driven round by round
+	hbStop := make(chan struct{})
+	var hbOnce sync.Once
+	var hbWG sync.WaitGroup
+	stopHeartbeat := func() {
+		hbOnce.Do(func() { close(hbStop) })
+		hbWG.Wait()
+	}
+	defer stopHeartbeat()
+	hbPeriod := time.Duration(2+run.Rand(key+"/heartbeat").Intn(4)) * time.Millisecond // own PRNG: (seed, case, role)
+	hbWG.Add(1)
+	go func() {
+		defer hbWG.Done()
+		t := time.NewTicker(hbPeriod)
+		defer t.Stop()
+		for {
+			select {
+			case <-hbStop:
+				return
+			case <-t.C:
+				A.prop.AppendPing()
+				B.prop.AppendPing()
+			}
+		}
+	}()
+
 	// ---- clients
 	gens := map[string]*idGen{"A": {site: "A"}, "B": {site: "B"}}
 	type cl struct {
@@ -204,7 +233,7 @@ func oneLoop(run *harness.Run, key string, r *rand.Rand, c loopCfg) {
 			}
 			defer c0.close()
 			ops := genScript(r, gens[s.name], c, c.OpsPerClient+r.Intn(4))
-			clients = append(clients, &cl{s: s, c: c0, w1: ops[:len(ops)/2], w2: ops[len(ops)/2:], r: rand.New(rand.NewSource(r.Int63()))})
+			clients = append(clients, &cl{s: s, c: c0, w1: ops[:len(ops)/2], w2: ops[len(ops)/2:], r: run.Rand(fmt.Sprintf("%s/client/%s%d", key, s.name, k))})
 		}
 	}
 	ctl := map[string]*client{}
@@ -361,8 +390,14 @@ func oneLoop(run *harness.Run, key string, r *rand.Rand, c loopCfg) {
 		}
 	}
 
-	// ---- sentinels: S1, S2, then K quiet rounds
+	// ---- sentinels: S1, S2, then K quiet rounds.  Every round starts with the masters' heartbeat.
+	stopHeartbeat()
+	heartbeat := func() {
+		A.prop.AppendPing()
+		B.prop.AppendPing()
+	}
 	round := func(k int) string {
+		heartbeat()
 		ids := map[string]string{}
 		for _, s := range sites {
 			id := fmt.Sprintf("~%ssen.%d~", s.name, k)
@@ -397,6 +432,26 @@ func oneLoop(run *harness.Run, key string, r *rand.Rand, c loopCfg) {
 		}
 		env.quietRounds++
 	}
+	// idle rounds: the applications are silent, the masters only send their PING; a link that
+	// still forwards anything (an empty unit included) keeps the opposite link busy.  The flush
+	// round makes every earlier stream item processed (in-order links), so what the idle rounds
+	// produced has been executed when its sentinels have crossed.
+	for i := 0; i <= idleRounds; i++ {
+		for _, s := range sites {
+			env.idleMarks[s.name] = append(env.idleMarks[s.name], len(s.srv.Applied()))
+		}
+		if i == idleRounds {
+			break
+		}
+		heartbeat()
+		A.waitLinkQuiet()
+		B.waitLinkQuiet()
+	}
+	if why := round(3 + quietRounds); why != "" {
+		stopAndJudge(why)
+		return
+	}
+	env.idleDone = true
 	finish(run, env, links)
 }
 
@@ -538,6 +593,9 @@ func finish(run *harness.Run, env *loopEnv, links []*link) {
 	if env.s2Reached {
 		run.Count("loops_conclusive_after_S2", 1)
 		run.Count("quiet_rounds_checked", int64(env.quietRounds))
+		if env.idleDone {
+			run.Count("idle_heartbeat_rounds_checked", idleRounds)
+		}
 	}
 	phases := "incremental"
 	if c.Snapshot {
